@@ -1,6 +1,1429 @@
-//! C08 — not built yet.
-use crate::core::Ctx;
+//! C08 — float text I/O is lossless; base / precision changes are faithfully rounded.
+//!
+//! Sweeps (all exhaustive over their stated universes):
+//!  * parse.strings.B*   — every string of length <= L over a 16/17-symbol alphabet, judged by an
+//!                         independent recogniser of the documented grammar (`ref_parse`)
+//!  * parse.valid.B*     — grammar-directed valid literals (sign? prefix? digits(_digits)* (.digits)?
+//!                         (marker sign? digits)?) built from component lists: must be accepted
+//!  * parse.extreme      — literals whose exponent sits at the isize limits: Err or exact, never panic
+//!  * print.roundtrip.B* — every value of F(B,P,E) (+ multi-word significands) printed with
+//!                         {} {:e} {:E} {:?} ({:b} {:x} {:X} {:o} where implemented) and read back
+//!  * print.precision.*  — {:.k} / {:.ke} for k in 0..=P+3 (+ one long k) under all six modes,
+//!                         compared as strings with a reference layout of the exactly rounded value
+//!  * with_precision.*   — with_precision(p') for p' in 0..=P+1, limited and unlimited source
+//!  * conv.small/large.* — with_base_and_precision / with_base / to_decimal / to_binary for all
+//!                         ordered base pairs of {2,3,10,16}, both sides of THRESHOLD_SMALL_EXP
+//!  * from_f32 / from_f64 — TryFrom<f32/f64> for FBig / Repr over exponent-field x mantissa patterns
+#![allow(deprecated)]
+
+use crate::core::{guard, is_internal_panic, Ctx, Rec};
+use crate::fref::*;
+use crate::h::unflatten;
+use crate::uni::*;
+use dashu_base::Approximation;
+use dashu_float::round::{mode, Round, Rounding};
+use dashu_float::{FBig, Repr};
+use dashu_int::Word;
+use num_bigint::BigInt;
+use num_traits::{One, Signed, Zero};
+use std::convert::TryFrom;
+
+const P: &str = "C08";
+
+// =============================================================================================
+// reference recogniser of the documented float grammar (float/src/parse.rs, docs of
+// FBig::from_str_native) — written from the documentation, shares no code with dashu
+
+#[derive(Clone, Debug, PartialEq)]
+enum RefParse {
+    /// in the documented grammar: must be accepted with this (normalised) value and precision
+    Strict { sig: BigInt, exp: i128, prec: usize },
+    /// the reading is defined, but the docs are silent on whether the spelling is accepted
+    Loose { sig: BigInt, exp: i128, prec: usize, why: &'static str },
+    /// outside the documented grammar
+    Reject(&'static str),
+    /// in (or near) the grammar but the docs do not fix the meaning / representability
+    Unjudged(&'static str),
+}
+
+#[derive(Clone, Copy, Default, Debug)]
+struct Form {
+    hex: bool,
+    point: bool,
+    scale: bool,
+    underscore: bool,
+}
+impl Form {
+    fn class(&self, base: u32) -> String {
+        format!("B{}{}{}{}{}", base, if self.hex { ",hex" } else { "" }, if self.point { ",point" } else { "" }, if self.scale { ",scale" } else { "" }, if self.underscore { ",underscore" } else { "" })
+    }
+}
+
+fn markers_of(base: u32, hex: bool) -> &'static [char] {
+    match (base, hex) {
+        (2, true) => &['p', 'P', '@'],
+        (2, false) => &['b', 'B', '@'],
+        (8, _) => &['o', 'O', '@'],
+        (10, _) => &['e', 'E', '@'],
+        (16, _) => &['h', 'H', '@'],
+        _ => &['@'],
+    }
+}
+
+fn well_placed(part: &str) -> bool {
+    part.is_empty() || !(part.starts_with('_') || part.ends_with('_') || part.contains("__"))
+}
+
+/// exponents this far from the isize limits are representable whatever the intermediate steps
+fn exp_in_range(e: i128) -> bool {
+    let lim = (isize::MAX as i128) - 4096;
+    -lim <= e && e <= lim
+}
+
+fn ref_parse(base: u32, s: &str) -> (RefParse, Form) {
+    let mut form = Form::default();
+    if !s.is_ascii() {
+        return (RefParse::Reject("non-ascii"), form);
+    }
+    form.underscore = s.contains('_');
+    let mut rest = s;
+    let mut neg = false;
+    if let Some(r) = rest.strip_prefix('-') {
+        neg = true;
+        rest = r;
+    } else if let Some(r) = rest.strip_prefix('+') {
+        rest = r;
+    }
+    let upper_prefix = rest.starts_with("0X");
+    let hex = base == 2 && (rest.starts_with("0x") || upper_prefix);
+    form.hex = hex;
+    if hex {
+        rest = &rest[2..];
+    }
+    let (body, scale) = match rest.rfind(markers_of(base, hex)) {
+        Some(p) => (&rest[..p], Some((rest.as_bytes()[p] as char, &rest[p + 1..]))),
+        None => (rest, None),
+    };
+    form.scale = scale.is_some();
+    form.point = body.contains('.');
+    // ---- body
+    let radix = if hex { 16 } else { base };
+    let (int_s, frac_s) = match body.find('.') {
+        Some(p) => (&body[..p], &body[p + 1..]),
+        None => (body, ""),
+    };
+    let mut sig = BigInt::zero();
+    let (mut nint, mut nfrac) = (0usize, 0usize);
+    for (k, part) in [int_s, frac_s].iter().enumerate() {
+        for (pos, c) in part.chars().enumerate() {
+            if c == '_' {
+                continue;
+            }
+            match c.to_digit(radix) {
+                Some(d) => {
+                    sig = sig * radix + d;
+                    if k == 0 {
+                        nint += 1
+                    } else {
+                        nfrac += 1
+                    }
+                }
+                None => {
+                    let why = match c {
+                        '+' | '-' if k == 0 && pos == 0 => "double-sign",
+                        '+' | '-' if k == 1 && pos == 0 => "sign-in-fraction",
+                        '+' | '-' => "misplaced-sign",
+                        '.' => "second-point",
+                        ' ' => "space",
+                        _ => "invalid-digit",
+                    };
+                    return (RefParse::Reject(why), form);
+                }
+            }
+        }
+    }
+    if nint + nfrac == 0 {
+        return (RefParse::Reject("no-digits"), form);
+    }
+    // ---- scale
+    let mut unjudged: Option<&'static str> = None;
+    let mut scale_val: i128 = 0;
+    if let Some((m, t)) = scale {
+        let (sneg, d) = match t.strip_prefix('-') {
+            Some(r) => (true, r),
+            None => (false, t.strip_prefix('+').unwrap_or(t)),
+        };
+        if d.is_empty() {
+            return (RefParse::Reject("empty-exponent"), form);
+        }
+        if d.bytes().any(|c| !(c.is_ascii_digit() || c == b'_')) {
+            return (RefParse::Reject("bad-exponent"), form);
+        }
+        if d.contains('_') {
+            unjudged = Some("underscore-in-exponent");
+        } else {
+            let dd = d.trim_start_matches('0');
+            if dd.len() > 30 {
+                unjudged = Some("exponent-out-of-range");
+            } else {
+                let v: i128 = if dd.is_empty() { 0 } else { dd.parse().unwrap() };
+                scale_val = if sneg { -v } else { v };
+            }
+        }
+        if hex && m == '@' {
+            unjudged = Some("hex-form-with-@");
+        }
+    }
+    if let Some(why) = unjudged {
+        return (RefParse::Unjudged(why), form);
+    }
+    // ---- value
+    let (mut exp, prec) = if hex { (scale_val - 4 * nfrac as i128, 4 * (nint + nfrac)) } else { (scale_val - nfrac as i128, nint + nfrac) };
+    if !exp_in_range(scale_val) || !exp_in_range(exp) {
+        return (RefParse::Unjudged("exponent-near-isize-limit"), form);
+    }
+    if sig.is_zero() {
+        exp = 0;
+    } else {
+        let b = BigInt::from(base);
+        while (&sig % &b).is_zero() {
+            sig /= &b;
+            exp += 1;
+        }
+    }
+    if neg {
+        sig = -sig;
+    }
+    let loose = if !well_placed(int_s) || !well_placed(frac_s) {
+        Some("underscore-placement")
+    } else if upper_prefix {
+        Some("0X-prefix")
+    } else {
+        None
+    };
+    match loose {
+        Some(why) => (RefParse::Loose { sig, exp, prec, why }, form),
+        None => (RefParse::Strict { sig, exp, prec }, form),
+    }
+}
+
+/// run dashu's parser on `s` and judge it against the recogniser
+fn parse_case<const B: Word>(rec: &mut Rec, s: &str) {
+    let (want, form) = ref_parse(B as u32, s);
+    rec.step();
+    let got = guard(|| s.parse::<FBig<mode::Zero, B>>());
+    let case = || format!("base {} parse {:?}", B, s);
+    let got = match got {
+        Ok(g) => g,
+        Err(pm) => {
+            let kind = if is_internal_panic(&pm) { "internal-panic" } else { "panic" };
+            let huge = s.as_bytes().windows(9).any(|w| w.iter().all(|c| c.is_ascii_digit())) && form.scale;
+            let cls = match &want {
+                _ if huge => "exponent-near-isize-limit".to_string(),
+                RefParse::Strict { .. } => "valid-literal".to_string(),
+                RefParse::Loose { why, .. } => format!("loose:{}", why),
+                RefParse::Reject(why) => format!("invalid:{}", why),
+                RefParse::Unjudged(why) => format!("unjudged:{}", why),
+            };
+            rec.fail(format!("{}|FBig::from_str|{}|{}", P, kind, cls), case(), pm, "Ok(exact value) or Err, never a panic");
+            return;
+        }
+    };
+    let judge_value = |rec: &mut Rec, f: &FBig<mode::Zero, B>, sig: &BigInt, exp: i128, prec: usize| {
+        let gs = i_to_ref(f.repr().significand());
+        let ge = f.repr().exponent() as i128;
+        if f.repr().is_infinite() || &gs != sig || ge != exp {
+            rec.fail(format!("{}|FBig::from_str|wrong-value|{}", P, form.class(B as u32)), case(), format!("{} * {}^{}", gs, B, ge), format!("{} * {}^{}", sig, B, exp));
+        } else if f.precision() != prec {
+            rec.fail(format!("{}|FBig::from_str|wrong-precision|{}", P, form.class(B as u32)), case(), format!("precision {}", f.precision()), format!("precision {} (number of written digits{})", prec, if form.hex { ", 4 per hex digit" } else { "" }));
+        }
+        if !sig.is_zero() {
+            rec.nontrivial();
+        }
+    };
+    match (&want, &got) {
+        (RefParse::Strict { sig, exp, prec }, Ok(f)) => {
+            rec.hit("accepted");
+            if form.hex {
+                rec.hit("accepted:hex-form");
+            }
+            if form.scale {
+                rec.hit("accepted:scale");
+            }
+            if form.point {
+                rec.hit("accepted:point");
+            }
+            if form.underscore {
+                rec.hit("accepted:underscore");
+            }
+            if sig.is_negative() {
+                rec.hit("accepted:negative");
+            }
+            judge_value(rec, f, sig, *exp, *prec);
+        }
+        (RefParse::Strict { sig, exp, .. }, Err(e)) => {
+            rec.fail(format!("{}|FBig::from_str|rejects-valid|{}", P, form.class(B as u32)), case(), format!("Err({:?})", e), format!("Ok({} * {}^{})", sig, B, exp));
+        }
+        (RefParse::Loose { sig, exp, prec, why }, Ok(f)) => {
+            rec.hit(&format!("unspecified-spelling-accepted:{}", why));
+            judge_value(rec, f, sig, *exp, *prec);
+        }
+        (RefParse::Loose { why, .. }, Err(_)) => rec.hit(&format!("unspecified-spelling-rejected:{}", why)),
+        (RefParse::Reject(why), Ok(f)) => {
+            rec.fail(format!("{}|FBig::from_str|accepts-ungrammatical|{}", P, why), case(), format!("Ok({} * {}^{}, precision {})", i_to_ref(f.repr().significand()), B, f.repr().exponent(), f.precision()), format!("Err (not in the documented grammar: {})", why));
+        }
+        (RefParse::Reject(why), Err(_)) => {
+            rec.hit("rejected");
+            rec.hit(&format!("rejected:{}", why));
+        }
+        (RefParse::Unjudged(why), Ok(_)) => rec.hit(&format!("unspecified:{}:accepted", why)),
+        (RefParse::Unjudged(why), Err(_)) => rec.hit(&format!("unspecified:{}:rejected", why)),
+    }
+}
+
+fn alphabet(base: u32) -> Vec<char> {
+    let mut a = vec!['0', '1', '9', 'a', 'f', 'z', '_', '.', '-', '+', 'e', '@', 'x', 'p', ' ', 'é'];
+    match base {
+        2 => a.push('b'),
+        8 => a.push('o'),
+        16 => a.push('h'),
+        10 => a.push('E'),
+        _ => {}
+    }
+    a
+}
+
+fn n_strings(k: u64, l: u32) -> u64 {
+    (0..=l).map(|j| k.pow(j)).sum()
+}
+
+fn string_at(alpha: &[char], mut i: u64) -> String {
+    let k = alpha.len() as u64;
+    let (mut len, mut cnt) = (0usize, 1u64);
+    while i >= cnt {
+        i -= cnt;
+        cnt *= k;
+        len += 1;
+    }
+    let mut cs = vec![' '; len];
+    for j in (0..len).rev() {
+        cs[j] = alpha[(i % k) as usize];
+        i /= k;
+    }
+    cs.into_iter().collect()
+}
+
+fn parse_strings<const B: Word>(ctx: &mut Ctx, l: u32) {
+    let alpha = alphabet(B as u32);
+    let n = n_strings(alpha.len() as u64, l);
+    let name = format!("parse.strings.B{}", B);
+    let ar = &alpha;
+    ctx.sweep(&name, n, |i, rec| {
+        let s = string_at(ar, i);
+        parse_case::<B>(rec, &s);
+        rec.sample(|| format!("base {} parse {:?} -> {:?}", B, s, ref_parse(B as u32, &s).0));
+    });
+    let mut req = vec!["accepted", "rejected", "accepted:scale", "accepted:point", "accepted:negative", "accepted:underscore", "rejected:no-digits", "rejected:invalid-digit", "rejected:misplaced-sign", "rejected:double-sign", "rejected:sign-in-fraction", "rejected:second-point", "rejected:empty-exponent", "rejected:non-ascii", "rejected:space"];
+    if B == 2 {
+        req.push("accepted:hex-form");
+    }
+    ctx.require_classes(&name, &req);
+}
+
+/// grammar-directed valid literals with the value computed from the components
+struct Lit {
+    text: String,
+    sig: BigInt,
+    exp: i128,
+    prec: usize,
+}
+
+fn digit_char(d: u32) -> char {
+    std::char::from_digit(d, 36).unwrap()
+}
+
+fn valid_literals(base: u32, thorough: bool) -> Vec<Lit> {
+    let m = digit_char(base - 1); // largest digit
+    let h = digit_char(base / 2); // a middle digit
+    let long: String = (0..if base <= 3 { 150 } else { 45 }).map(|i| digit_char(((i * 7 + 1) % base as usize) as u32)).collect();
+    let mut ints: Vec<String> = vec!["".into(), "0".into(), "1".into(), m.to_string(), "10".into(), format!("00{}1", m), "1_0".into(), format!("{}_{}_{}", m, h, m), long[..25].to_string(), long.clone()];
+    let mut fracs: Vec<Option<String>> = vec![None, Some("".into()), Some("0".into()), Some(h.to_string()), Some("01".into()), Some(format!("{}0", m)), Some("0_1".into()), Some("000".into()), Some(long[..23].to_string())];
+    if thorough {
+        ints.push(format!("{}{}", m.to_uppercase(), h.to_uppercase()));
+        ints.push(format!("1{}", "0".repeat(30)));
+        fracs.push(Some(format!("{}1", "0".repeat(30))));
+        fracs.push(Some(format!("{}_{}", m, m)));
+    }
+    let mks = markers_of(base, false);
+    let mut scales: Vec<Option<(char, String)>> = vec![None];
+    for &mk in mks {
+        for e in ["0", "5", "+5", "-5", "-07", "40", "-300"] {
+            scales.push(Some((mk, e.to_string())));
+        }
+    }
+    let mut out = vec![];
+    let bb = BigInt::from(base);
+    let radix_val = |s: &str, radix: u32| -> (BigInt, usize) {
+        let mut v = BigInt::zero();
+        let mut n = 0;
+        for c in s.chars().filter(|c| *c != '_') {
+            v = v * radix + c.to_digit(radix).unwrap();
+            n += 1;
+        }
+        (v, n)
+    };
+    let mut push = |text: String, mut sig: BigInt, mut exp: i128, prec: usize, neg: bool| {
+        if sig.is_zero() {
+            exp = 0;
+        } else {
+            while (&sig % &bb).is_zero() {
+                sig /= &bb;
+                exp += 1;
+            }
+        }
+        out.push(Lit { text, sig: if neg { -sig } else { sig }, exp, prec });
+    };
+    for sign in ["", "+", "-"] {
+        for i in &ints {
+            for f in &fracs {
+                if i.is_empty() && f.as_deref().unwrap_or("").is_empty() {
+                    continue;
+                }
+                for sc in &scales {
+                    let mut t = format!("{}{}", sign, i);
+                    if let Some(f) = f {
+                        t.push('.');
+                        t.push_str(f);
+                    }
+                    let mut e: i128 = 0;
+                    if let Some((mk, es)) = sc {
+                        t.push(*mk);
+                        t.push_str(es);
+                        e = es.parse::<i128>().unwrap();
+                    }
+                    let (iv, ni) = radix_val(i, base);
+                    let (fv, nf) = radix_val(f.as_deref().unwrap_or(""), base);
+                    let sig = iv * num_traits::pow(bb.clone(), nf) + fv;
+                    push(t, sig, e - nf as i128, ni + nf, sign == "-");
+                }
+            }
+        }
+    }
+    if base == 2 {
+        // hex-float form 0xaaa.bbbPcc : value = 0xaaabbb / 16^len(bbb) * 2^cc, 4 digits per hex digit
+        let hints = ["", "0", "1", "f", "1F", "00a1", "8_0", "123456789abcdef0123"];
+        let hfracs: [Option<&str>; 7] = [None, Some(""), Some("0"), Some("8"), Some("01"), Some("f_f"), Some("0123456789ABCDEF01")];
+        let mut hscales: Vec<Option<(char, &str)>> = vec![None];
+        for mk in ['p', 'P'] {
+            for e in ["0", "3", "+3", "-3", "-70", "100"] {
+                hscales.push(Some((mk, e)));
+            }
+        }
+        for sign in ["", "+", "-"] {
+            for i in hints {
+                for f in hfracs {
+                    if i.is_empty() && f.unwrap_or("").is_empty() {
+                        continue;
+                    }
+                    for sc in &hscales {
+                        let mut t = format!("{}0x{}", sign, i);
+                        if let Some(f) = f {
+                            t.push('.');
+                            t.push_str(f);
+                        }
+                        let mut e: i128 = 0;
+                        if let Some((mk, es)) = sc {
+                            t.push(*mk);
+                            t.push_str(es);
+                            e = es.parse::<i128>().unwrap();
+                        }
+                        let (iv, ni) = radix_val(i, 16);
+                        let (fv, nf) = radix_val(f.unwrap_or(""), 16);
+                        let sig = iv * num_traits::pow(BigInt::from(16), nf) + fv;
+                        push(t, sig, e - 4 * nf as i128, 4 * (ni + nf), sign == "-");
+                    }
+                }
+            }
+        }
+    }
+    out
+}
+
+fn parse_valid<const B: Word>(ctx: &mut Ctx) {
+    let lits = valid_literals(B as u32, !ctx.quick());
+    // the two reference computations (component arithmetic vs recogniser) must agree
+    let mut bad = 0;
+    for l in &lits {
+        match ref_parse(B as u32, &l.text).0 {
+            RefParse::Strict { sig, exp, prec } if sig == l.sig && exp == l.exp && prec == l.prec => {}
+            other => {
+                if bad == 0 {
+                    ctx.machinery(format!("reference self-check: literal {:?} base {}: recogniser says {:?}, components say {} * B^{} prec {}", l.text, B, other, l.sig, l.exp, l.prec));
+                }
+                bad += 1;
+            }
+        }
+    }
+    let name = format!("parse.valid.B{}", B);
+    let lr = &lits;
+    ctx.sweep(&name, lits.len() as u64, |i, rec| {
+        let l = &lr[i as usize];
+        parse_case::<B>(rec, &l.text);
+        // the Repr-level entry point returns the same value and digit count
+        rec.step();
+        match guard(|| Repr::<B>::from_str_native(&l.text)) {
+            Ok(Ok((r, nd))) => {
+                if i_to_ref(r.significand()) != l.sig || r.exponent() as i128 != l.exp || nd != l.prec {
+                    rec.fail(format!("{}|Repr::from_str_native|wrong-value|B{}", P, B), format!("base {} parse {:?}", B, l.text), format!("{} * {}^{}, {} digits", i_to_ref(r.significand()), B, r.exponent(), nd), format!("{} * {}^{}, {} digits", l.sig, B, l.exp, l.prec));
+                }
+            }
+            Ok(Err(e)) => rec.fail(format!("{}|Repr::from_str_native|rejects-valid|B{}", P, B), format!("base {} parse {:?}", B, l.text), format!("Err({:?})", e), "Ok"),
+            Err(pm) => rec.fail(format!("{}|Repr::from_str_native|panic|B{}", P, B), format!("base {} parse {:?}", B, l.text), pm, "Ok"),
+        }
+        if l.sig.magnitude().bits() > 128 {
+            rec.hit("multi-word-significand");
+        }
+        rec.sample(|| format!("base {} parse {:?} = {} * {}^{} (precision {})", B, l.text, l.sig, B, l.exp, l.prec));
+    });
+    ctx.require_classes(&name, &["accepted", "accepted:scale", "accepted:point", "accepted:underscore", "accepted:negative", "multi-word-significand"]);
+    if B == 2 {
+        ctx.require_classes(&name, &["accepted:hex-form"]);
+    }
+}
+
+fn parse_extreme(ctx: &mut Ctx) {
+    // exponents at the limits of isize (both word sizes): representable ones must be exact or
+    // refused, unrepresentable ones refused; a panic (overflow check) is never acceptable
+    let mut v: Vec<String> = vec![];
+    for lim in [i64::MAX as i128, i32::MAX as i128] {
+        for d in [-2i128, -1, 0, 1, 2] {
+            let e = lim + d;
+            for body in ["1", "10", "100", "0.1", "0.01", "1.5", "0", "0.0"] {
+                v.push(format!("{}e{}", body, e));
+                v.push(format!("{}e-{}", body, e));
+                v.push(format!("-{}@{}", body, e));
+                v.push(format!("{}@-{}", body, e));
+            }
+        }
+    }
+    v.push("1e99999999999999999999999999999999999999999".into());
+    v.push("1e-99999999999999999999999999999999999999999".into());
+    let vr = &v;
+    ctx.sweep("parse.extreme", v.len() as u64 * 2, |i, rec| {
+        let s = &vr[(i / 2) as usize];
+        if i % 2 == 0 {
+            parse_case::<10>(rec, s);
+        } else {
+            // the same spelled for base 2 (marker b / @, hex form with p)
+            let t = s.replace('e', "b").replace("1.5", "1.1").replace("0.01", "0x0.4").replace("100", "0x10");
+            let t = if t.contains("0x") { t.replace('b', "p") } else { t };
+            parse_case::<2>(rec, &t);
+        }
+        rec.sample(|| format!("parse {:?}", s));
+    });
+}
+
+// =============================================================================================
+// printing
+
+#[derive(Clone)]
+struct FV {
+    s: BigInt,
+    e: i64,
+    digits: usize,
+    rat: Rat,
+}
+
+fn fvs(base: u32, u: &[(BigInt, i64)]) -> Vec<FV> {
+    u.iter().map(|(s, e)| FV { s: s.clone(), e: *e, digits: digits_b(s, base), rat: Rat::scaled(s, base, *e) }).collect()
+}
+
+/// a few multi-word significands (not divisible by the base)
+fn big_sigs(base: u32) -> Vec<BigInt> {
+    let b = BigInt::from(base);
+    let lcg = BigInt::from(shape(3, "lcgA", 0)) >> 70usize; // ~120 bits
+    let mut l = lcg.clone();
+    while (&l % &b).is_zero() {
+        l += 1;
+    }
+    vec![num_traits::pow(b.clone(), 20) + 1, num_traits::pow(b.clone(), 40) - 1, l]
+}
+
+/// integer nearest to x in the direction of the mode (the definition of the six modes)
+fn round_rat(x: &Rat, m: Mode) -> BigInt {
+    let fl = x.floor();
+    if x.is_int() {
+        return fl;
+    }
+    let ce = &fl + 1;
+    let neg = x.is_neg();
+    match m {
+        Mode::Down => fl,
+        Mode::Up => ce,
+        Mode::Zero => {
+            if neg {
+                ce
+            } else {
+                fl
+            }
+        }
+        Mode::Away => {
+            if neg {
+                fl
+            } else {
+                ce
+            }
+        }
+        Mode::HalfEven | Mode::HalfAway => {
+            let twice = x.sub(&Rat::int(fl.clone())).mul(&Rat::from_i(2)); // 2*(x - floor) in (0,2)
+            match twice.cmp(&Rat::from_i(1)) {
+                std::cmp::Ordering::Less => fl,
+                std::cmp::Ordering::Greater => ce,
+                std::cmp::Ordering::Equal => {
+                    if m == Mode::HalfEven {
+                        if (&fl % BigInt::from(2)).is_zero() {
+                            fl
+                        } else {
+                            ce
+                        }
+                    } else if neg {
+                        fl
+                    } else {
+                        ce
+                    }
+                }
+            }
+        }
+    }
+}
+
+/// `{:.k}`: sign, integer digits, '.', exactly k fraction digits of x rounded to k places.
+/// Returns (text, text with '-' when a negative x rounds to zero, class)
+fn ref_fixed(x: &Rat, base: u32, k: usize, m: Mode) -> (String, Option<String>, &'static str) {
+    let scaled = x.mul(&Rat::int(pow_b(base, k as u64)));
+    let y = round_rat(&scaled, m);
+    let mut mag = y.magnitude().to_str_radix(base);
+    if mag.len() < k + 1 {
+        mag = format!("{}{}", "0".repeat(k + 1 - mag.len()), mag);
+    }
+    let (ip, fp) = mag.split_at(mag.len() - k);
+    let body = if k > 0 { format!("{}.{}", ip, fp) } else { ip.to_string() };
+    let class = if scaled.is_int() {
+        "fixed:exact"
+    } else if y.is_zero() {
+        "fixed:rounds-to-zero"
+    } else if digits_b(&y, base) > digits_b(&scaled.trunc(), base) && !scaled.trunc().is_zero() {
+        "fixed:carry-into-new-digit"
+    } else if Rat::int(y.clone()).sub(&scaled).abs() == Rat::new(BigInt::one(), BigInt::from(2)) {
+        "fixed:tie"
+    } else {
+        "fixed:inexact"
+    };
+    if y.is_negative() {
+        (format!("-{}", body), None, class)
+    } else if y.is_zero() && x.is_neg() {
+        (body.clone(), Some(format!("-{}", body)), class)
+    } else {
+        (body, None, class)
+    }
+}
+
+/// `{:.ke}`: one digit, '.', k digits of x rounded to k+1 significant digits, marker, exponent
+fn ref_sci(x: &Rat, base: u32, k: usize, m: Mode, marker: char, upper: bool) -> (String, &'static str) {
+    if x.is_zero() {
+        let body = if k > 0 { format!("0.{}", "0".repeat(k)) } else { "0".to_string() };
+        return (format!("{}{}0", body, marker), "sci:zero");
+    }
+    let mut d = x.floor_log(base);
+    let scaled = x.div(&Rat::scaled(&BigInt::one(), base, d - k as i64));
+    let mut q = round_rat(&scaled, m);
+    let mut class = if scaled.is_int() { "sci:exact" } else { "sci:inexact" };
+    if q.abs() == pow_b(base, k as u64 + 1) {
+        q /= BigInt::from(base);
+        d += 1;
+        class = "sci:carry-into-new-digit";
+    }
+    let mut digs = q.magnitude().to_str_radix(base);
+    if upper {
+        digs = digs.to_uppercase();
+    }
+    let (ip, fp) = digs.split_at(1);
+    let body = if k > 0 { format!("{}.{}", ip, fp) } else { ip.to_string() };
+    (format!("{}{}{}{}", if q.is_negative() { "-" } else { "" }, body, marker, d), class)
+}
+
+/// read a printed float back with the reference recogniser: Some((sig, exp)) when it is a strict
+/// literal of the grammar
+fn ref_read(base: u32, s: &str) -> Option<(BigInt, i128)> {
+    match ref_parse(base, s).0 {
+        RefParse::Strict { sig, exp, .. } => Some((sig, exp)),
+        _ => None,
+    }
+}
+
+fn extra_formats(base: u32, s: &BigInt, e: i64, prec: usize) -> Vec<(&'static str, Result<String, String>)> {
+    match base {
+        2 => {
+            let f = fbig_of::<mode::Zero, 2>(s, e, prec);
+            vec![("{:b}", guard(|| format!("{:b}", f))), ("{:x}", guard(|| format!("{:x}", f))), ("{:X}", guard(|| format!("{:X}", f))), ("Repr {:x}", guard(|| format!("{:x}", f.repr())))]
+        }
+        8 => {
+            let f = fbig_of::<mode::Zero, 8>(s, e, prec);
+            vec![("{:o}", guard(|| format!("{:o}", f)))]
+        }
+        16 => {
+            let f = fbig_of::<mode::Zero, 16>(s, e, prec);
+            vec![("{:x}", guard(|| format!("{:x}", f))), ("{:X}", guard(|| format!("{:X}", f)))]
+        }
+        _ => vec![],
+    }
+}
+
+fn print_roundtrip<const B: Word>(ctx: &mut Ctx, p: u32, e: i64) {
+    let mut u = f_universe(B as u32, p, e);
+    for s in big_sigs(B as u32) {
+        for ex in [-e, -45, -21, -1, 0, 1, 7, e] {
+            u.push((s.clone(), ex));
+            u.push((-s.clone(), ex));
+        }
+    }
+    let vals = fvs(B as u32, &u);
+    let name = format!("print.roundtrip.B{}", B);
+    let vr = &vals;
+    ctx.sweep(&name, vals.len() as u64, |i, rec| {
+        let v = &vr[i as usize];
+        let prec = v.digits.max(1);
+        let f = fbig_of::<mode::HalfEven, B>(&v.s, v.e, prec);
+        let want = if v.s.is_zero() { (BigInt::zero(), 0i128) } else { (v.s.clone(), v.e as i128) };
+        let case = |fmtname: &str| format!("base {} value {} * {}^{} printed with {}", B, v.s, B, v.e, fmtname);
+        let mut outs: Vec<(&'static str, Result<String, String>)> = vec![
+            ("{}", guard(|| format!("{}", f))),
+            ("{:e}", guard(|| format!("{:e}", f))),
+            ("{:E}", guard(|| format!("{:E}", f))),
+            ("Repr {}", guard(|| format!("{}", f.repr()))),
+            ("Repr {:e}", guard(|| format!("{:e}", f.repr()))),
+        ];
+        outs.extend(extra_formats(B as u32, &v.s, v.e, prec));
+        for (fmtname, out) in outs {
+            rec.step();
+            let text = match out {
+                Ok(t) => t,
+                Err(pm) => {
+                    rec.fail(format!("{}|FBig::fmt {}|panic|B{}", P, fmtname, B), case(fmtname), pm, "a string");
+                    continue;
+                }
+            };
+            // (1) the text denotes the value, by the reference reading of the grammar
+            match ref_read(B as u32, &text) {
+                Some(r) if r == want => {}
+                Some(r) => rec.fail(format!("{}|FBig::fmt {}|prints-wrong-value|B{}", P, fmtname, B), case(fmtname), format!("{:?} which reads as {} * {}^{}", text, r.0, B, r.1), format!("{} * {}^{}", want.0, B, want.1)),
+                None => rec.fail(format!("{}|FBig::fmt {}|prints-outside-grammar|B{}", P, fmtname, B), case(fmtname), format!("{:?}", text), "a literal of the documented grammar"),
+            }
+            // (2) dashu's own parser returns an equal number
+            rec.step();
+            match guard(|| text.parse::<FBig<mode::HalfEven, B>>()) {
+                Ok(Ok(g)) => {
+                    let same = guard(|| g == f).unwrap_or(false);
+                    if i_to_ref(g.repr().significand()) != want.0 || g.repr().exponent() as i128 != want.1 || !same {
+                        rec.fail(format!("{}|FBig::fmt {} then from_str|roundtrip-differs|B{}", P, fmtname, B), case(fmtname), format!("{:?} parsed back as {} * {}^{}", text, i_to_ref(g.repr().significand()), B, g.repr().exponent()), format!("{} * {}^{}", want.0, B, want.1));
+                    }
+                }
+                Ok(Err(e)) => rec.fail(format!("{}|FBig::fmt {} then from_str|roundtrip-rejected|B{}", P, fmtname, B), case(fmtname), format!("{:?} -> Err({:?})", text, e), "Ok(equal number)"),
+                Err(pm) => rec.fail(format!("{}|FBig::fmt {} then from_str|panic|B{}", P, fmtname, B), case(fmtname), format!("{:?} -> {}", text, pm), "Ok(equal number)"),
+            }
+            if fmtname == "{}" {
+                let nd = v.digits as i64;
+                rec.hit(if v.s.is_zero() {
+                    "layout:zero"
+                } else if v.e > 0 {
+                    "layout:integer-with-appended-zeros"
+                } else if v.e == 0 {
+                    "layout:integer"
+                } else if -v.e >= nd {
+                    "layout:fraction-with-leading-zeros"
+                } else {
+                    "layout:digits-on-both-sides"
+                });
+            }
+        }
+        // Debug shows the parts (documented by example in the FBig docs); judged for one-word significands
+        if v.s.magnitude().bits() <= 60 {
+            rec.step();
+            let want_dbg = format!("{} * {} ^ {} (prec: {})", want.0, B, want.1, prec);
+            match guard(|| format!("{:?}", f)) {
+                Ok(t) if t == want_dbg => {}
+                Ok(t) => rec.fail(format!("{}|FBig::fmt {{:?}}|debug-shows-wrong-parts|B{}", P, B), case("{:?}"), t, want_dbg),
+                Err(pm) => rec.fail(format!("{}|FBig::fmt {{:?}}|panic|B{}", P, B), case("{:?}"), pm, want_dbg),
+            }
+        } else {
+            rec.hit("multi-word-significand");
+        }
+        if !v.s.is_zero() {
+            rec.nontrivial();
+        }
+        rec.sample(|| format!("base {}: {} * {}^{} prints as {:?} / {:?}", B, v.s, B, v.e, format!("{}", f), format!("{:e}", f)));
+    });
+    ctx.require_classes(&name, &["layout:zero", "layout:integer", "layout:integer-with-appended-zeros", "layout:fraction-with-leading-zeros", "layout:digits-on-both-sides", "multi-word-significand"]);
+}
+
+/// call `$f::<Mode, ..>(args)` for the mode with index `$im` in fref::MODES
+macro_rules! by_mode {
+    ($im:expr, $f:ident, [$($g:tt)*], ($($a:expr),*)) => {
+        match $im {
+            0 => $f::<mode::Zero, $($g)*>($($a),*),
+            1 => $f::<mode::Away, $($g)*>($($a),*),
+            2 => $f::<mode::Up, $($g)*>($($a),*),
+            3 => $f::<mode::Down, $($g)*>($($a),*),
+            4 => $f::<mode::HalfEven, $($g)*>($($a),*),
+            _ => $f::<mode::HalfAway, $($g)*>($($a),*),
+        }
+    };
+}
+
+fn hit_m(rec: &mut Rec, m: Mode, class: &str) {
+    rec.hit(&format!("{}:{}", m.name(), class));
+}
+
+fn require_m(ctx: &mut Ctx, sweep: &str, m: Mode, classes: &[&str]) {
+    let v: Vec<String> = classes.iter().map(|c| format!("{}:{}", m.name(), c)).collect();
+    let r: Vec<&str> = v.iter().map(|x| x.as_str()).collect();
+    ctx.require_classes(sweep, &r);
+}
+
+fn print_precision<const B: Word>(ctx: &mut Ctx, p: u32, e: i64) {
+    let vals = fvs(B as u32, &f_universe(B as u32, p, e));
+    let mut ks: Vec<usize> = (0..=(p as usize + 3)).collect();
+    ks.push(e as usize + p as usize + 2); // longer than any fraction: zeros are appended
+    let (nv, nk) = (vals.len() as u64, ks.len() as u64);
+    let name = format!("print.precision.B{}", B);
+    let (vr, kr) = (&vals, &ks);
+    ctx.sweep(&name, nv * nk * 6, |i, rec| {
+        let [iv, ik, im] = unflatten(i, [nv, nk, 6]);
+        by_mode!(im, print_precision_case, [B], (rec, &vr[iv], kr[ik]));
+    });
+    for m in MODES {
+        let mut req = vec!["fixed:exact", "fixed:inexact", "sci:exact", "sci:inexact", "sci:zero"];
+        if m != Mode::Away {
+            req.push("fixed:rounds-to-zero");
+        }
+        if m != Mode::Zero {
+            req.push("fixed:carry-into-new-digit");
+            req.push("sci:carry-into-new-digit");
+        }
+        if B % 2 == 0 {
+            req.push("fixed:tie");
+        }
+        require_m(ctx, &name, m, &req);
+    }
+}
+
+fn print_precision_case<R: ModeTag, const B: Word>(rec: &mut Rec, v: &FV, k: usize) {
+    let marker = if B == 10 { 'e' } else { '@' };
+    {
+        let f = fbig_of::<R, B>(&v.s, v.e, v.digits.max(1));
+        let case = |what: &str| format!("base {} mode {} value {} * {}^{} printed with {{:.{}{}}}", B, R::MODE.name(), v.s, B, v.e, k, what);
+        // fixed
+        rec.step();
+        let (want, alt, class) = ref_fixed(&v.rat, B as u32, k, R::MODE);
+        hit_m(rec, R::MODE, class);
+        match guard(|| format!("{:.*}", k, f)) {
+            Ok(t) => {
+                if t == want {
+                } else if alt.as_deref() == Some(t.as_str()) {
+                    rec.hit("unspecified:minus-sign-on-zero-result");
+                } else {
+                    let kind = match ref_read(B as u32, &t) {
+                        Some(r) if Rat::scaled(&r.0, B as u32, r.1 as i64) == ref_read(B as u32, &want).map(|w| Rat::scaled(&w.0, B as u32, w.1 as i64)).unwrap_or(Rat::zero()) => "right-value-wrong-layout",
+                        Some(_) => "wrong-rounding",
+                        None => "prints-outside-grammar",
+                    };
+                    let cls = if kind == "wrong-rounding" { R::MODE.name().to_string() } else { class.to_string() };
+                    rec.fail(format!("{}|FBig::fmt {{:.k}}|{}|{}", P, kind, cls), case(""), format!("{:?}", t), format!("{:?}", want));
+                }
+            }
+            Err(pm) => rec.fail(format!("{}|FBig::fmt {{:.k}}|panic|B{},{}", P, B, class), case(""), pm, format!("{:?}", want)),
+        }
+        if R::MODE == Mode::Zero {
+            // Repr has no mode of its own: documented to print like the Zero mode
+            rec.step();
+            match guard(|| format!("{:.*}", k, f.repr())) {
+                Ok(t) if t == want || alt.as_deref() == Some(t.as_str()) => {}
+                Ok(t) => rec.fail(format!("{}|Repr::fmt {{:.k}}|differs-from-zero-mode|{}", P, class), case(" (Repr)"), format!("{:?}", t), format!("{:?}", want)),
+                Err(pm) => rec.fail(format!("{}|Repr::fmt {{:.k}}|panic|{}", P, class), case(" (Repr)"), pm, format!("{:?}", want)),
+            }
+        }
+        // scientific
+        rec.step();
+        let (want, class) = ref_sci(&v.rat, B as u32, k, R::MODE, marker, false);
+        hit_m(rec, R::MODE, class);
+        match guard(|| format!("{:.*e}", k, f)) {
+            Ok(t) => {
+                if t != want {
+                    let val = |s: &str| ref_read(B as u32, s).map(|w| Rat::scaled(&w.0, B as u32, w.1 as i64));
+                    let kind = match (val(&t), val(&want)) {
+                        (Some(a), Some(b)) if a == b => "right-value-wrong-layout",
+                        (Some(_), _) => "wrong-rounding",
+                        _ => "prints-outside-grammar",
+                    };
+                    let cls = if kind == "wrong-rounding" { R::MODE.name().to_string() } else { class.to_string() };
+                    rec.fail(format!("{}|FBig::fmt {{:.ke}}|{}|{}", P, kind, cls), case("e"), format!("{:?}", t), format!("{:?}", want));
+                }
+            }
+            Err(pm) => rec.fail(format!("{}|FBig::fmt {{:.ke}}|panic|B{},{}", P, B, class), case("e"), pm, format!("{:?}", want)),
+        }
+        if !v.s.is_zero() {
+            rec.nontrivial();
+        }
+        rec.sample(|| format!("base {} {} {} * {}^{} with {{:.{}}} -> {:?}, {{:.{}e}} -> {:?}", B, R::MODE.name(), v.s, B, v.e, k, format!("{:.*}", k, f), k, format!("{:.*e}", k, f)));
+    }
+}
+
+// =============================================================================================
+// with_precision
+
+fn unwrap_rounded<T>(a: Approximation<T, Rounding>) -> (T, Flag) {
+    match a {
+        Approximation::Exact(v) => (v, Flag::Exact),
+        Approximation::Inexact(v, r) => (v, Flag::Inexact(r)),
+    }
+}
+
+fn with_precision_sweep<const B: Word>(ctx: &mut Ctx, p: u32, e: i64) {
+    let vals = fvs(B as u32, &f_universe(B as u32, p, e));
+    let tps: Vec<usize> = (0..=(p as usize + 1)).collect();
+    let (nv, nt) = (vals.len() as u64, tps.len() as u64);
+    let name = format!("with_precision.B{}", B);
+    let (vr, tr) = (&vals, &tps);
+    ctx.sweep(&name, nv * nt * 2 * 6, |i, rec| {
+        let [iv, it, unl, im] = unflatten(i, [nv, nt, 2, 6]);
+        by_mode!(im, with_precision_case, [B], (rec, &vr[iv], tr[it], unl, p as usize));
+    });
+    for m in MODES {
+        require_m(ctx, &name, m, &["exact", "shrinks", "representable-in-target"]);
+        require_m(ctx, &name, m, inexact_classes(m));
+    }
+}
+
+fn with_precision_case<R: ModeTag, const B: Word>(rec: &mut Rec, v: &FV, tp: usize, unl: usize, p: usize) {
+    {
+        let srcp = if unl == 1 { 0 } else { p };
+        let srcname = if unl == 1 { "src-unlimited" } else { "src-limited" };
+        let case = || format!("base {} mode {}: ({} * {}^{} at precision {}).with_precision({})", B, R::MODE.name(), v.s, B, v.e, srcp, tp);
+        rec.step();
+        let got = guard(|| fbig_of::<R, B>(&v.s, v.e, srcp).with_precision(tp));
+        match got {
+            Ok(a) => {
+                let (r, flag) = unwrap_rounded(a);
+                if r.repr().is_infinite() {
+                    rec.fail(format!("{}|FBig::with_precision|infinite-result|B{}", P, B), case(), "infinite", v.rat.show());
+                    return;
+                }
+                let rv = fval(r.repr());
+                match judge(&v.rat, &rv, flag, tp, R::MODE) {
+                    Ok(class) => {
+                        hit_m(rec, R::MODE, class);
+                        if tp != 0 && v.digits > tp {
+                            hit_m(rec, R::MODE, "shrinks");
+                        }
+                    }
+                    Err((kind, why)) => rec.fail(format!("{}|FBig::with_precision|{}|{}", P, kind, if unl == 1 { srcname.to_string() } else { format!("{},B{},{}", srcname, B, if R::MODE.is_half() { "half" } else { "directed" }) }), case(), format!("{} flag {:?}: {}", rv.show(), flag, why), format!("{} rounded to {} digits in mode {}", v.rat.show(), tp, R::MODE.name())),
+                }
+                if r.precision() != tp {
+                    rec.fail(format!("{}|FBig::with_precision|result-precision|B{}", P, B), case(), format!("precision {}", r.precision()), format!("{}", tp));
+                }
+                if tp != 0 && representable(&v.rat, B as u32, tp) {
+                    hit_m(rec, R::MODE, "representable-in-target");
+                }
+            }
+            Err(pm) => rec.fail(format!("{}|FBig::with_precision|panic|{}", P, srcname), case(), pm, "a rounded value"),
+        }
+        if !v.s.is_zero() {
+            rec.nontrivial();
+        }
+        rec.sample(|| case());
+    }
+}
+
+fn inexact_classes(m: Mode) -> &'static [&'static str] {
+    match m {
+        Mode::Zero => &["inexact-noop"],
+        Mode::Away => &["inexact-addone", "inexact-subone"],
+        Mode::Up => &["inexact-addone", "inexact-noop"],
+        Mode::Down => &["inexact-subone", "inexact-noop"],
+        _ => &["inexact-addone", "inexact-subone", "inexact-noop"],
+    }
+}
+
+// =============================================================================================
+// base conversion
+
+/// threshold of Context::convert_base (float/src/convert.rs): |exponent| <= this -> exact power
+fn small_exp_threshold() -> i64 {
+    (Word::BITS as f32 * 0.60206) as i64
+}
+
+fn is_pow_of(n: u32, b: u32) -> bool {
+    let mut x = b as u64;
+    while x < n as u64 {
+        x *= b as u64;
+    }
+    x == n as u64 && n > b
+}
+
+fn branch_of(b: u32, nb: u32, s: &BigInt, e: i64) -> &'static str {
+    if is_pow_of(nb, b) {
+        "new-base-is-power"
+    } else if is_pow_of(b, nb) {
+        "old-base-is-power"
+    } else if s.is_zero() {
+        "zero"
+    } else if e.abs() <= small_exp_threshold() {
+        if e >= 0 {
+            "small-exp>=0"
+        } else {
+            "small-exp<0"
+        }
+    } else {
+        "large-exp"
+    }
+}
+
+/// the documented target precision of with_base: max k with NB^k <= B^p
+fn documented_precision(b: u32, nb: u32, p: usize) -> usize {
+    if p == 0 {
+        return 0;
+    }
+    let lim = pow_b(b, p as u64);
+    let mut k = 0usize;
+    let mut x = BigInt::from(nb);
+    while x <= lim {
+        k += 1;
+        x *= nb;
+    }
+    k
+}
+
+/// One root cause in Context::convert_base shows through four public wrappers, six modes and many
+/// failure kinds; the signature names the branch of convert_base, and buckets the kinds of the
+/// (approximate) large-exponent branch.
+fn conv_sig(site: &str, kind: &str, branch: &str, fam: &str) -> String {
+    const ROUNDING: [&str; 6] = ["error>=1ulp", "error>half-ulp", "wrong-side", "flag-addone-but-below", "flag-subone-but-above", "nonzero-for-zero"];
+    const FLAGS: [&str; 2] = ["flag-exact-but-inexact", "flag-inexact-but-exact"];
+    if branch == "target-precision-0" {
+        return format!("{}|FBig::{}|{}|target-precision-0", P, site, kind);
+    }
+    if branch == "large-exp" {
+        let k = if ROUNDING.contains(&kind) {
+            "inaccurate"
+        } else if FLAGS.contains(&kind) {
+            "wrong-flag"
+        } else {
+            kind
+        };
+        format!("{}|Context::convert_base|{}|{}", P, k, branch)
+    } else if ROUNDING.contains(&kind) {
+        format!("{}|Context::convert_base|{}|{},{}", P, kind, branch, fam)
+    } else {
+        format!("{}|Context::convert_base|{}|{}", P, kind, branch)
+    }
+}
+
+#[allow(clippy::too_many_arguments)]
+fn judge_conv<R2: Round, const NB: Word>(rec: &mut Rec, site: &str, class: &str, fam: &str, case: &dyn Fn() -> String, x: &Rat, got: Result<Approximation<FBig<R2, NB>, Rounding>, String>, tp: usize, m: Mode, want_prec: Option<usize>) {
+    rec.step();
+    match got {
+        Ok(a) => {
+            let (r, flag) = unwrap_rounded(a);
+            if r.repr().is_infinite() {
+                rec.fail(conv_sig(site, "infinite-result", class, fam), case(), "infinite", x.show());
+                return;
+            }
+            if let Some(wp) = want_prec {
+                if r.precision() != wp {
+                    rec.fail(format!("{}|FBig::{}|result-precision|{}", P, site, if r.precision() < wp { "below-documented" } else { "above-documented" }), case(), format!("result precision {}", r.precision()), format!("{} (max k with NewB^k <= B^precision)", wp));
+                }
+            }
+            let rv = fval(r.repr());
+            // judged against the precision the result claims to carry
+            let jp = want_prec.map(|_| r.precision()).unwrap_or(tp);
+            match judge(x, &rv, flag, jp, m) {
+                Ok(c) => hit_m(rec, m, c),
+                Err((kind, why)) => rec.fail(conv_sig(site, kind, class, fam), case(), format!("{} flag {:?} (precision {}): {}", rv.show(), flag, r.precision(), why), format!("{} rounded to {} base-{} digits in mode {}", x.show(), jp, NB, m.name())),
+            }
+            if want_prec.is_none() && r.precision() != tp {
+                rec.fail(format!("{}|FBig::{}|result-precision|{}", P, site, class), case(), format!("result precision {}", r.precision()), format!("{}", tp));
+            }
+        }
+        Err(pm) => {
+            let kind = if is_internal_panic(&pm) { "internal-panic" } else { "panic" };
+            rec.fail(conv_sig(site, kind, class, fam), case(), pm, format!("{} rounded to {} base-{} digits in mode {}", x.show(), tp, NB, m.name()));
+        }
+    }
+}
+
+#[allow(non_upper_case_globals)]
+fn conv_sweep<const B: Word, const NB: Word>(ctx: &mut Ctx, vals: &[FV], tps: &[usize], srcps: &[usize], tag: &str) {
+    let (nv, nt) = (vals.len() as u64, tps.len() as u64);
+    let name = format!("conv.{}.B{}toB{}", tag, B, NB);
+    ctx.sweep(&name, nv * nt * 6, |i, rec| {
+        let [iv, it, im] = unflatten(i, [nv, nt, 6]);
+        by_mode!(im, conv_case, [B, NB], (rec, &vals[iv], tps[it], it, srcps));
+    });
+    if tag == "small" {
+        for m in MODES {
+            require_m(ctx, &name, m, &["representable-in-target", "exact"]);
+        }
+        ctx.require_classes(&name, &["with_base:documented-precision>0"]);
+        ctx.require_classes(&name, if NB > B && !is_pow_of(NB as u32, B as u32) { &["with_base:documented-precision-0"] } else { &[] });
+    }
+}
+
+#[allow(non_upper_case_globals)]
+fn conv_case<R: ModeTag, const B: Word, const NB: Word>(rec: &mut Rec, v: &FV, tp: usize, it: usize, srcps: &[usize]) {
+    let fam = if R::MODE.is_half() { "half" } else { "directed" };
+    {
+        let br = branch_of(B as u32, NB as u32, &v.s, v.e);
+        rec.hit(&format!("branch:{}", br));
+        let srcp = v.digits.max(1);
+        let case = move || format!("mode {}: ({} * {}^{}, precision {}).with_base_and_precision::<{}>({})", R::MODE.name(), v.s, B, v.e, srcp, NB, tp);
+        judge_conv::<R, NB>(rec, "with_base_and_precision", br, fam, &case, &v.rat, guard(|| fbig_of::<R, B>(&v.s, v.e, srcp).with_base_and_precision::<NB>(tp)), tp, R::MODE, None);
+        if tp != 0 && representable(&v.rat, NB as u32, tp) {
+            hit_m(rec, R::MODE, "representable-in-target");
+        }
+        if it == 0 {
+            // with_base: documented choice of the target precision, for several source precisions
+            for &sp in srcps {
+                if sp < v.digits {
+                    continue;
+                }
+                let wp = documented_precision(B as u32, NB as u32, sp);
+                let cls = if wp == 0 { "target-precision-0".to_string() } else { br.to_string() };
+                if wp == 0 {
+                    rec.hit("with_base:documented-precision-0");
+                } else {
+                    rec.hit("with_base:documented-precision>0");
+                }
+                let case = move || format!("mode {}: ({} * {}^{}, precision {}).with_base::<{}>()", R::MODE.name(), v.s, B, v.e, sp, NB);
+                judge_conv::<R, NB>(rec, "with_base", &cls, fam, &case, &v.rat, guard(|| fbig_of::<R, B>(&v.s, v.e, sp).with_base::<NB>()), wp, R::MODE, Some(wp));
+                // to_decimal / to_binary fix the mode themselves: run once (in the Zero instantiation)
+                if R::MODE == Mode::Zero && wp != 0 {
+                    if NB == 10 {
+                        let case = move || format!("({} * {}^{}, precision {}).to_decimal()", v.s, B, v.e, sp);
+                        judge_conv::<mode::HalfAway, 10>(rec, "to_decimal", br, "half", &case, &v.rat, guard(|| fbig_of::<R, B>(&v.s, v.e, sp).to_decimal()), wp, Mode::HalfAway, Some(wp));
+                    }
+                    if NB == 2 {
+                        let case = move || format!("({} * {}^{}, precision {}).to_binary()", v.s, B, v.e, sp);
+                        judge_conv::<mode::Zero, 2>(rec, "to_binary", br, "directed", &case, &v.rat, guard(|| fbig_of::<R, B>(&v.s, v.e, sp).to_binary()), wp, Mode::Zero, Some(wp));
+                    }
+                }
+            }
+            // unlimited precision: only power-related bases convert, the others panic as documented
+            rec.step();
+            let got = guard(|| fbig_of::<R, B>(&v.s, v.e, 0).with_base_and_precision::<NB>(0));
+            let case0 = || format!("({} * {}^{}, unlimited precision).with_base_and_precision::<{}>(0)", v.s, B, v.e, NB);
+            if br == "new-base-is-power" || br == "old-base-is-power" {
+                match got {
+                    Ok(a) => {
+                        let (r, flag) = unwrap_rounded(a);
+                        if fval(r.repr()).rat() != v.rat || flag != Flag::Exact {
+                            rec.fail(format!("{}|FBig::with_base_and_precision|inexact-at-unlimited-precision|{}", P, br), case0(), format!("{} flag {:?}", fval(r.repr()).show(), flag), format!("Exact({})", v.rat.show()));
+                        } else {
+                            rec.hit("unlimited:exact");
+                        }
+                    }
+                    Err(pm) => rec.fail(format!("{}|FBig::with_base_and_precision|panic|{},unlimited", P, br), case0(), pm, "Exact"),
+                }
+            } else {
+                match got {
+                    Err(pm) if !is_internal_panic(&pm) => rec.hit("unlimited:documented-panic"),
+                    Err(pm) => rec.fail(format!("{}|FBig::with_base_and_precision|internal-panic|unlimited", P), case0(), pm, "the documented unlimited-precision panic"),
+                    Ok(_) => rec.fail(format!("{}|FBig::with_base_and_precision|missing-panic|unlimited", P), case0(), "returned a value", "the documented unlimited-precision panic"),
+                }
+            }
+        }
+        if !v.s.is_zero() {
+            rec.nontrivial();
+        }
+        rec.sample(&case);
+    }
+}
+
+/// source universes of the conversion sweeps for one source base: (small-exponent, large-exponent)
+fn conv_universe(base: u32, p: u32, p_large: u32, quick: bool) -> (Vec<FV>, Vec<FV>) {
+    let thr = small_exp_threshold();
+    let mut exps: Vec<i64> = (-8..=8).collect();
+    for x in [19i64, 20, 37, 38, 39, 40, 100, 1000] {
+        if quick && (x == 37 || x == 20) {
+            continue;
+        }
+        exps.push(x);
+        exps.push(-x);
+    }
+    let (lim, lim_large) = ((base as i64).pow(p), (base as i64).pow(p_large));
+    let (mut small, mut large) = (vec![(BigInt::zero(), 0i64)], vec![]);
+    for s in 1..lim {
+        if s % base as i64 == 0 {
+            continue;
+        }
+        for &ex in &exps {
+            for sg in [1i64, -1] {
+                let item = (BigInt::from(sg * s), ex);
+                if ex.abs() <= thr {
+                    small.push(item);
+                } else if s < lim_large {
+                    large.push(item);
+                }
+            }
+        }
+    }
+    (fvs(base, &small), fvs(base, &large))
+}
+
+fn conv_from<const B: Word>(ctx: &mut Ctx, p: u32, p_large: u32) {
+    let quick = ctx.quick();
+    let (small, large) = conv_universe(B as u32, p, p_large, quick);
+    let tps: Vec<usize> = vec![1, 2, 5, 17];
+    // source precisions for with_base: the digit bound, some larger ones, and tiny ones (1..3
+    // digits give a documented target precision of 0 for larger target bases)
+    let srcps: Vec<usize> = vec![1, 2, 3, p as usize, p as usize + 3, 10, 24];
+    macro_rules! to {
+        ($nb:expr) => {
+            if $nb != B {
+                conv_sweep::<B, $nb>(ctx, &small, &tps, &srcps, "small");
+                conv_sweep::<B, $nb>(ctx, &large, &tps, &srcps, "large");
+            }
+        };
+    }
+    to!(2);
+    to!(3);
+    to!(10);
+    to!(16);
+}
+
+// =============================================================================================
+// f32 / f64 import
+
+fn from_floats(ctx: &mut Ctx) {
+    let m32: Vec<u32> = if ctx.quick() { vec![0, 1, 2, 3, 0x40_0000, 0x7F_FFFF, 0x55_5555, 0x2A_AAAA, 0x7F_FFFE, 0x00_0100, 0x70_0000, 0x0F_F000] } else { (0..23).map(|k| 1u32 << k).chain((1..23).map(|k| (1u32 << k) - 1)).chain([0, 0x7F_FFFF, 0x55_5555, 0x2A_AAAA, 0x7F_FFFE, 0x70_0000, 0x0F_F000, 0x12_3456]).collect() };
+    let n32 = m32.len() as u64;
+    let mr = &m32;
+    ctx.sweep("from_f32", 256 * n32 * 2, |i, rec| {
+        let [ef, im, sg] = unflatten(i, [256, n32, 2]);
+        let bits = ((sg as u32) << 31) | ((ef as u32) << 23) | mr[im];
+        let f = f32::from_bits(bits);
+        let (mant, e) = if ef == 0 { (mr[im] as i64, -126 - 23) } else { ((mr[im] | (1 << 23)) as i64, ef as i64 - 127 - 23) };
+        let want = Rat::scaled(&BigInt::from(if sg == 1 { -mant } else { mant }), 2, e);
+        float_case(rec, "f32", format!("f32::from_bits({:#010x}) = {:e}", bits, f), ef == 255, mr[im] != 0, sg == 1, &want, guard(|| FBig::<mode::Zero, 2>::try_from(f)), guard(|| Repr::<2>::try_from(f)));
+        rec.sample(|| format!("f32::from_bits({:#010x})", bits));
+    });
+    ctx.require_classes("from_f32", &["finite", "subnormal", "zero", "infinite", "nan"]);
+    let m64: Vec<u64> = if ctx.quick() { vec![0, 1, 2, 3, 1 << 51, (1 << 52) - 1, 0x5_5555_5555_5555, 0xA_AAAA_AAAA_AAAA, (1 << 52) - 2, 1 << 32, 0xF_0000_0000_0000, 0x0_0000_FFFF_0000] } else { (0..52).map(|k| 1u64 << k).chain((1..52).map(|k| (1u64 << k) - 1)).chain([0, (1 << 52) - 1, 0x5_5555_5555_5555, 0xA_AAAA_AAAA_AAAA, (1 << 52) - 2, 0xF_0000_0000_0000, 0x1_2345_6789_ABCD]).collect() };
+    let n64 = m64.len() as u64;
+    let mr = &m64;
+    ctx.sweep("from_f64", 2048 * n64 * 2, |i, rec| {
+        let [ef, im, sg] = unflatten(i, [2048, n64, 2]);
+        let bits = ((sg as u64) << 63) | ((ef as u64) << 52) | mr[im];
+        let f = f64::from_bits(bits);
+        let (mant, e) = if ef == 0 { (mr[im] as i64, -1022 - 52) } else { ((mr[im] | (1 << 52)) as i64, ef as i64 - 1023 - 52) };
+        let want = Rat::scaled(&BigInt::from(if sg == 1 { -mant } else { mant }), 2, e);
+        float_case(rec, "f64", format!("f64::from_bits({:#018x}) = {:e}", bits, f), ef == 2047, mr[im] != 0, sg == 1, &want, guard(|| FBig::<mode::Zero, 2>::try_from(f)), guard(|| Repr::<2>::try_from(f)));
+        rec.sample(|| format!("f64::from_bits({:#018x})", bits));
+    });
+    ctx.require_classes("from_f64", &["finite", "subnormal", "zero", "infinite", "nan"]);
+}
+
+#[allow(clippy::too_many_arguments)]
+fn float_case<E: std::fmt::Debug>(rec: &mut Rec, ty: &str, case: String, special: bool, mant_nonzero: bool, neg: bool, want: &Rat, got_f: Result<Result<FBig<mode::Zero, 2>, E>, String>, got_r: Result<Result<Repr<2>, E>, String>) {
+    rec.steps(2);
+    let reprs: [(&str, Result<Result<(Repr<2>, Option<usize>), E>, String>); 2] = [("FBig", got_f.map(|r| r.map(|f| (f.repr().clone(), Some(f.precision()))))), ("Repr", got_r.map(|r| r.map(|x| (x, None))))];
+    for (site, got) in reprs {
+        let site = format!("{}::try_from({})", site, ty);
+        match got {
+            Err(pm) => rec.fail(format!("{}|{}|panic|{}", P, site, if special { "special" } else { "finite" }), case.clone(), pm, "Ok / Err"),
+            Ok(Err(e)) => {
+                if special && mant_nonzero {
+                    rec.hit("nan");
+                } else {
+                    rec.fail(format!("{}|{}|refused|{}", P, site, if special { "infinity" } else { "finite" }), case.clone(), format!("Err({:?})", e), if special { "an infinity".to_string() } else { format!("Ok({})", want.show()) });
+                }
+            }
+            Ok(Ok((r, prec))) => {
+                if special && mant_nonzero {
+                    rec.fail(format!("{}|{}|nan-accepted|nan", P, site), case.clone(), format!("Ok({})", fval(&r).show()), "Err (NaN is documented to be refused)");
+                } else if special {
+                    let ok = r.is_infinite() && (r.sign() == dashu_base::Sign::Negative) == neg;
+                    if ok {
+                        rec.hit("infinite");
+                    } else {
+                        rec.fail(format!("{}|{}|wrong-value|infinity", P, site), case.clone(), format!("{}", fval(&r).show()), "the infinity of the same sign");
+                    }
+                } else {
+                    if r.is_infinite() || &fval(&r).rat() != want {
+                        rec.fail(format!("{}|{}|wrong-value|{}", P, site, if want.is_zero() { "zero" } else { "finite" }), case.clone(), fval(&r).show(), want.show());
+                    } else {
+                        rec.hit(if want.is_zero() { "zero" } else { "finite" });
+                        if !want.is_zero() && site.starts_with("FBig") {
+                            rec.nontrivial();
+                        }
+                    }
+                    if let Some(p) = prec {
+                        // the value must fit the precision the result claims (p = 0: unlimited)
+                        let d = fval(&r).digits();
+                        if p != 0 && d > p {
+                            rec.fail(format!("{}|{}|precision-below-digits|finite", P, site), case.clone(), format!("precision {} for a {}-bit significand", p, d), "precision >= digits");
+                        }
+                    }
+                }
+            }
+        }
+    }
+    if !special && !want.is_zero() && want.abs() < Rat::scaled(&BigInt::one(), 2, if ty == "f32" { -126 } else { -1022 }) {
+        rec.hit("subnormal");
+    }
+}
+
+// =============================================================================================
+
+fn self_check(ctx: &mut Ctx) {
+    let st = |s: i64, e: i128, p: usize| RefParse::Strict { sig: BigInt::from(s), exp: e, prec: p };
+    let cases: Vec<(u32, &str, RefParse)> = vec![
+        (10, "-1.23400e-3", st(-1234, -6, 6)),
+        (10, "-123.4@-05", st(-1234, -6, 4)),
+        (10, "12.34000", st(1234, -2, 7)),
+        (10, "00012.34", st(1234, -2, 7)),
+        (10, ".5", st(5, -1, 1)),
+        (10, "5.", st(5, 0, 1)),
+        (10, "1_000", st(1, 3, 4)),
+        (10, "0e7", st(0, 0, 1)),
+        (2, "0x1.8p1", st(3, 0, 8)),
+        (2, "0x1.234p-4", st(1165, -14, 16)),
+        (2, "-0x1234", st(-1165, 2, 16)),
+        (2, "1.01b3", st(5, 1, 3)),
+        (16, "1.234", st(0x1234, -3, 4)),
+        (16, "f.fh-1", st(0xff, -2, 2)),
+        (8, "7.1o2", st(57, 1, 2)),
+        (36, "z@1", st(35, 1, 1)),
+        (10, "-0x1.234p-3", RefParse::Reject("invalid-digit")),
+        (10, "-1.234H-3", RefParse::Reject("invalid-digit")),
+        (10, ".", RefParse::Reject("no-digits")),
+        (10, "", RefParse::Reject("no-digits")),
+        (10, "1.+5", RefParse::Reject("sign-in-fraction")),
+        (10, "-+5", RefParse::Reject("double-sign")),
+        (10, "1+5", RefParse::Reject("misplaced-sign")),
+        (10, "1e", RefParse::Reject("empty-exponent")),
+        (10, "1.2.3", RefParse::Reject("second-point")),
+        (2, "1p3", RefParse::Reject("invalid-digit")),
+        (2, "0x.p1", RefParse::Reject("no-digits")),
+    ];
+    for (b, s, want) in cases {
+        let got = ref_parse(b, s).0;
+        if got != want {
+            ctx.machinery(format!("reference self-check: ref_parse({}, {:?}) = {:?}, hand value {:?}", b, s, got, want));
+        }
+    }
+    // rounding definition on hand-computed cases: x = n/4 at the six modes (Zero Away Up Down HalfEven HalfAway)
+    let table: [(i64, [i64; 6]); 6] = [(5, [1, 2, 2, 1, 1, 1]), (6, [1, 2, 2, 1, 2, 2]), (10, [2, 3, 3, 2, 2, 3]), (-6, [-1, -2, -1, -2, -2, -2]), (-10, [-2, -3, -2, -3, -2, -3]), (-7, [-1, -2, -1, -2, -2, -2])];
+    for (n, want) in table {
+        for (k, m) in MODES.iter().enumerate() {
+            let got = round_rat(&Rat::new(BigInt::from(n), BigInt::from(4)), *m);
+            if got != BigInt::from(want[k]) {
+                ctx.machinery(format!("reference self-check: round({}/4, {}) = {}, hand value {}", n, m.name(), got, want[k]));
+            }
+        }
+    }
+    let x = Rat::new(BigInt::from(-9996), BigInt::from(1000));
+    let checks = [
+        (ref_fixed(&x, 10, 2, Mode::HalfEven).0, "-10.00"),
+        (ref_fixed(&x, 10, 0, Mode::Zero).0, "-9"),
+        (ref_fixed(&Rat::new(BigInt::from(4), BigInt::from(1000)), 10, 2, Mode::Up).0, "0.01"),
+        (ref_fixed(&Rat::from_i(1200), 10, 1, Mode::Down).0, "1200.0"),
+        (ref_sci(&x, 10, 2, Mode::HalfEven, 'e', false).0, "-1.00e1"),
+        (ref_sci(&x, 10, 3, Mode::Zero, 'e', false).0, "-9.996e0"),
+        (ref_sci(&Rat::new(BigInt::from(5), BigInt::from(16)), 2, 1, Mode::Zero, '@', false).0, "1.0@-2"),
+    ];
+    for (got, want) in checks {
+        if got != want {
+            ctx.machinery(format!("reference self-check: layout {:?}, hand value {:?}", got, want));
+        }
+    }
+    if documented_precision(2, 10, 10) != 3 || documented_precision(2, 10, 3) != 0 || documented_precision(10, 2, 3) != 9 || documented_precision(2, 16, 8) != 2 || documented_precision(16, 2, 2) != 8 {
+        ctx.machinery("reference self-check: documented_precision");
+    }
+    let j = judge(&Rat::new(BigInt::from(1234), BigInt::from(1000)), &FVal { sig: BigInt::from(12), exp: -1, base: 10 }, Flag::Inexact(Rounding::NoOp), 2, Mode::Zero).is_ok() && judge(&Rat::new(BigInt::from(1234), BigInt::from(1000)), &FVal { sig: BigInt::from(12), exp: -1, base: 10 }, Flag::Exact, 2, Mode::Zero).is_err();
+    if !j {
+        ctx.machinery("reference self-check: rounding-contract judge");
+    }
+}
 
 pub fn run(ctx: &mut Ctx) {
-    ctx.machinery("check C08 is not built yet");
+    ctx.rule = "parse: every string of length <= L over the per-base alphabet (16 symbols + the base's exponent marker) and every literal of a component grammar, each judged by an independent recogniser of the documented grammar (value compared as normalised (significand, exponent), precision = written digits); print: every value s*B^e of F(B,P,E) (|s| < B^P, B does not divide s, |e| <= E, both signs, plus multi-word significands) through every formatting trait, read back by the recogniser and by dashu's parser, and through {:.k}/{:.ke} for every k and mode against a reference layout of the exactly rounded value; with_precision and base conversions: every value x target precision x mode (x ordered base pair of {2,3,10,16}), judged against the exact rational by the rounding contract; f32/f64 import: every exponent field x listed mantissa patterns x sign. non-trivial = non-zero value".into();
+    ctx.assume("the documented grammar is the one in the docs of FBig::from_str_native plus digit-separating underscores (digits(_digits)*); other underscore placements, the 0X prefix, underscores in the exponent, '@' after the hex form and exponents within 4096 of the isize limits are not judged beyond 'no panic' and 'if accepted, the obvious reading'");
+    ctx.assume("exact rationals over num_bigint::BigInt are the reference; ties of half modes are judged exactly for printing (the mode table in round.rs) and as <= 1/2 ulp for conversions");
+    ctx.assume("a negative value that rounds to zero may print with or without '-'");
+    self_check(ctx);
+    let quick = ctx.quick();
+
+    // ---- (a) parsing
+    let l = ctx.pick(5u32, 6u32);
+    ctx.bound("parse.max_string_length", l);
+    parse_strings::<2>(ctx, l);
+    parse_strings::<10>(ctx, l);
+    parse_strings::<16>(ctx, l);
+    if !quick {
+        parse_strings::<8>(ctx, l);
+        parse_strings::<36>(ctx, l);
+    }
+    parse_valid::<2>(ctx);
+    parse_valid::<10>(ctx);
+    parse_valid::<16>(ctx);
+    parse_valid::<8>(ctx);
+    parse_valid::<36>(ctx);
+    parse_valid::<3>(ctx);
+    parse_extreme(ctx);
+
+    // ---- (b) printing
+    let e = ctx.pick(24i64, 60i64);
+    let (p2, p10, p16) = ctx.pick((5u32, 2u32, 2u32), (7u32, 3u32, 2u32));
+    ctx.bound("print.F(B,P,E)", serde_json::json!({"B2": [p2, e], "B10": [p10, e], "B16": [p16, e], "B8": [2, e], "B3": [3, e], "B36": [1, e]}));
+    print_roundtrip::<2>(ctx, p2, e);
+    print_roundtrip::<10>(ctx, p10, e);
+    print_roundtrip::<16>(ctx, p16, e);
+    let p8 = ctx.pick(1u32, 2u32);
+    print_roundtrip::<8>(ctx, p8, e);
+    if !quick {
+        print_roundtrip::<3>(ctx, 3, e);
+        print_roundtrip::<36>(ctx, 1, e);
+    }
+    let ep = ctx.pick(9i64, 14i64);
+    ctx.bound("print.precision.E", ep);
+    print_precision::<2>(ctx, p2, ep);
+    print_precision::<10>(ctx, p10, ep);
+    print_precision::<16>(ctx, p16, ep);
+    if !quick {
+        print_precision::<3>(ctx, 3, ep);
+    }
+
+    // ---- (c) with_precision
+    let (w2, w10) = ctx.pick((6u32, 3u32), (8u32, 4u32));
+    let ew = ctx.pick(4i64, 8i64);
+    ctx.bound("with_precision.F(B,P,E)", serde_json::json!({"B2": [w2, ew], "B10": [w10, ew], "B3": [3, ew], "B16": [2, ew]}));
+    with_precision_sweep::<2>(ctx, w2, ew);
+    with_precision_sweep::<10>(ctx, w10, ew);
+    with_precision_sweep::<3>(ctx, 3, ew);
+    with_precision_sweep::<16>(ctx, 2, ew);
+
+    // ---- (d) base conversion
+    ctx.bound("conv.small_exp_threshold", small_exp_threshold());
+    ctx.bound("conv.target_precisions", serde_json::json!([1, 2, 5, 17]));
+    ctx.bound("conv.exponents", serde_json::json!("-8..=8 and +-{19,20,37,38,39,40,100,1000} (quick: without 20, 37)"));
+    let (c2, c3, c10, c16) = ctx.pick((5u32, 3u32, 2u32, 2u32), (7u32, 4u32, 3u32, 2u32));
+    let (l2, l3, l10, l16) = ctx.pick((4u32, 2u32, 1u32, 1u32), (6u32, 3u32, 2u32, 2u32));
+    ctx.bound("conv.source_digit_bound", serde_json::json!({"small-exponent": {"B2": c2, "B3": c3, "B10": c10, "B16": c16}, "large-exponent": {"B2": l2, "B3": l3, "B10": l10, "B16": l16}}));
+    conv_from::<2>(ctx, c2, l2);
+    conv_from::<3>(ctx, c3, l3);
+    conv_from::<10>(ctx, c10, l10);
+    conv_from::<16>(ctx, c16, l16);
+
+    // ---- (e) IEEE import
+    from_floats(ctx);
 }
